@@ -8,6 +8,7 @@ import (
 	"fmt"
 	"go/token"
 	"go/types"
+	"regexp"
 	"strings"
 
 	"golang.org/x/tools/go/ssa"
@@ -708,4 +709,82 @@ func reflectTag(tag, key string) string {
 		}
 	}
 	return ""
+}
+
+func init() {
+	avField := func(args []value) *value {
+		p := args[0].(*value)
+		if p == nil {
+			panic(runtimePanic("invalid memory address or nil pointer dereference"))
+		}
+		st := (*p).(structure)
+		return &st[0]
+	}
+	intrinsics["(*sync/atomic.Value).Store"] = func(fr *frame, args []value) value {
+		*avField(args) = args[1]
+		return nil
+	}
+	intrinsics["(*sync/atomic.Value).Load"] = func(fr *frame, args []value) value {
+		v, ok := (*avField(args)).(iface)
+		if !ok {
+			return iface{}
+		}
+		return v
+	}
+	intrinsics["(*sync/atomic.Value).Swap"] = func(fr *frame, args []value) value {
+		old, _ := (*avField(args)).(iface)
+		*avField(args) = args[1]
+		return old
+	}
+}
+
+func init() {
+	// heavy constructors whose results are only passed around or handed to
+	// modelled methods: a pointer to the zero value of the result type
+	zeroPtr := func(fr *frame, args []value) value {
+		res := fr.fn.Signature.Results().At(0).Type()
+		var cell value = zero(deref(res))
+		return &cell
+	}
+	intrinsics["github.com/go-playground/validator/v10.New"] = zeroPtr
+	// regexp: compile natively, keep the host object behind the pointer
+	intrinsics["regexp.MustCompile"] = func(fr *frame, args []value) value {
+		pat := concreteString(args[0], "regexp pattern")
+		var cell value = &opaque{tag: "regexp", data: regexp.MustCompile(pat)}
+		return &cell
+	}
+	intrinsics["(*regexp.Regexp).MatchString"] = func(fr *frame, args []value) value {
+		p := args[0].(*value)
+		re := (*p).(*opaque).data.(*regexp.Regexp)
+		s := args[1].(sval)
+		if c, ok := s.concrete(); ok {
+			return mkBool(re.MatchString(c))
+		}
+		return fr.r.regexpSymbolic(re, s)
+	}
+}
+
+// regexpSymbolic decides a match over symbolic bytes for the pattern shapes
+// the repository uses, by forking on byte classes; other patterns are
+// unsupported (path inconclusive).
+func (r *run) regexpSymbolic(re *regexp.Regexp, s sval) value {
+	if re.String() == `^\d+\.\d+$` {
+		b := s.bytes()
+		isDigit := func(t *Term) *Term {
+			return mkAnd(bvCmp("bvuge", t, mkBV(8, '0')), bvCmp("bvule", t, mkBV(8, '9')))
+		}
+		// digits+ '.' digits+ : fork on the position of the dot
+		res := tFalse
+		for dot := 1; dot+1 < len(b); dot++ {
+			c := mkEq(b[dot], mkBV(8, '.'))
+			for i, t := range b {
+				if i != dot {
+					c = mkAnd(c, isDigit(t))
+				}
+			}
+			res = mkOr(res, c)
+		}
+		return res
+	}
+	panic(engineError{"regexp match over symbolic bytes for pattern " + re.String()})
 }
